@@ -64,6 +64,10 @@ def aeval(e, env, depth=0):
         raise Undecidable('too deep')
     if isinstance(e, ast.Constant):
         return e.value
+    if isinstance(e, ast.Name):
+        if e.id in env:
+            return env[e.id]
+        raise Undecidable('name %s' % e.id)
     t = None
     if isinstance(e, (ast.Attribute, ast.Subscript, ast.Compare)):
         t = norm(e)
